@@ -476,4 +476,353 @@ theorem uMemInScope_of_regions {packed : Bool} {ms : List SMem}
   rintro ⟨hb, hn⟩
   simp [hb, hn] at a1
 
+/-! ### whole types (nested aggregates, arrays, pointers) -/
+
+/-- declared types a bit-field may have (C11 6.7.2.1p5 + the integer types gcc and chibicc both accept) -/
+def isBitfieldBase : Ty → Bool
+  | .prim t => t == .bool || t == .char || t == .uchar || t == .short || t == .ushort || t == .int || t == .uint ||
+               t == .long || t == .ulong
+  | _ => false
+
+def alignedOk : Option Int → Bool
+  | none => true
+  | some n => decide (0 < n)
+
+mutual
+  /-- well-formed type description (C11 constraints on bit-fields, non-negative numbers); with `r = true` also:
+      every aggregate is outside the three known-finding regions -/
+  def Ty.ok (r : Bool) : Ty → Bool
+    | .prim _ => true
+    | .enum => true
+    | .ptr => true
+    | .arr e n => e.ok r && decide (0 ≤ n)
+    | .flex e => e.ok r
+    | .struct p al ms => ms.ok r && alignedOk al && (!r || (!PackedWithBitfield p (specMembers ms) && !PackedWithMemberAlign p (specMembers ms)))
+    | .union p al ms => ms.ok r && alignedOk al && (!r || (!PackedUnionBitfield p (specMembers ms) && !PackedWithMemberAlign p (specMembers ms)))
+  def Members.ok (r : Bool) : Members → Bool
+    | .nil => true
+    | .cons d ty rest =>
+      ty.ok r && rest.ok r && decide (0 ≤ d.alignas) &&
+      (match d.bitWidth with
+       | none => true
+       | some w => isBitfieldBase ty && d.alignas == 0 && decide (0 ≤ w) && decide (w ≤ 8 * (specSizeAlign ty).1) &&
+                   (!d.named || decide (0 < w)))
+end
+
+theorem prim_eq (t : TyName) : primSize t = ((psabiScalar t).1 : Nat) ∧ primAlign t = ((psabiScalar t).2 : Nat) ∧
+    0 < (psabiScalar t).2 := by
+  cases t <;> decide
+
+theorem bitfieldBase_props {ty : Ty} (h : isBitfieldBase ty = true) :
+    0 < (specSizeAlign ty).1 ∧ (specSizeAlign ty).2 = (specSizeAlign ty).1 := by
+  cases ty with
+  | prim t => cases t <;> first | (simp [isBitfieldBase] at h; done) | decide
+  | _ => simp [isBitfieldBase] at h
+
+
+theorem specSizeAlign_struct (p : Bool) (al : Option Int) (ms : Members) :
+    specSizeAlign (.struct p al ms) =
+      ((specStruct p (al.map Int.toNat) (specMembers ms)).size, (specStruct p (al.map Int.toNat) (specMembers ms)).align) := by
+  simp [specSizeAlign]
+
+theorem specSizeAlign_union (p : Bool) (al : Option Int) (ms : Members) :
+    specSizeAlign (.union p al ms) =
+      ((specUnion p (al.map Int.toNat) (specMembers ms)).size, (specUnion p (al.map Int.toNat) (specMembers ms)).align) := by
+  simp [specSizeAlign]
+
+theorem aligned_cast {al : Option Int} (h : alignedOk al = true) :
+    (al.getD ((STRUCT_INIT_ALIGN : Nat) : Int)) = (((al.map Int.toNat).getD STRUCT_INIT_ALIGN : Nat) : Int) ∧
+    (∀ n, al.map Int.toNat = some n → 0 < n) := by
+  cases al with
+  | none => simp
+  | some n =>
+    simp only [alignedOk, decide_eq_true_eq] at h
+    simp only [Option.getD_some, Option.map_some, Option.some.injEq]
+    refine ⟨by omega, ?_⟩
+    intro m hm; omega
+
+mutual
+  theorem ty_eq : ∀ (t : Ty), t.ok true = true →
+      t.sizeAlign = .ok (((specSizeAlign t).1 : Nat), ((specSizeAlign t).2 : Nat)) ∧ 0 < (specSizeAlign t).2
+    | .prim t, _ => by
+      have := prim_eq t
+      simp only [Ty.sizeAlign, specSizeAlign, this.1, this.2.1]
+      exact ⟨trivial, this.2.2⟩
+    | .enum, _ => ⟨rfl, by decide⟩
+    | .ptr, _ => ⟨rfl, by decide⟩
+    | .arr e n, h => by
+      simp only [Ty.ok, Bool.and_eq_true, decide_eq_true_eq] at h
+      have ih := ty_eq e h.1
+      simp only [Ty.sizeAlign, ih.1, bind, Except.bind, pure, Except.pure, specSizeAlign]
+      refine ⟨?_, ih.2⟩
+      have : ((n.toNat : Nat) : Int) = n := Int.toNat_of_nonneg h.2
+      simp only [Except.ok.injEq, Prod.mk.injEq, and_true]
+      rw [Int.natCast_mul, this]
+    | .flex e, h => by
+      simp only [Ty.ok] at h
+      have ih := ty_eq e h
+      simp only [Ty.sizeAlign, ih.1, bind, Except.bind, pure, Except.pure, specSizeAlign]
+      refine ⟨?_, ih.2⟩
+      simp
+    | .struct p al ms, h => by
+      simp only [Ty.ok, Bool.not_true, Bool.false_or, Bool.and_eq_true, Bool.not_eq_true'] at h
+      obtain ⟨⟨hms, hal⟩, hB, hA⟩ := h
+      have ih := ms_eq ms hms
+      have hc := aligned_cast hal
+      have := structLayout_eq p (al.map Int.toNat) (specMembers ms) hc.2 ih.2 (memInScope_of_regions hB hA)
+      rw [specSizeAlign_struct]
+      simp only [Ty.sizeAlign, ih.1, bind, Except.bind, hc.1, this, pure, Except.pure, SLayout.toLayout]
+      refine ⟨trivial, ?_⟩
+      have ha0 : 0 < (al.map Int.toNat).getD 1 := by
+        cases h' : al.map Int.toNat with
+        | none => simp
+        | some n => simpa using hc.2 n h'
+      exact Nat.lt_of_lt_of_le ha0 (aggAlign_ge ..)
+    | .union p al ms, h => by
+      simp only [Ty.ok, Bool.not_true, Bool.false_or, Bool.and_eq_true, Bool.not_eq_true'] at h
+      obtain ⟨⟨hms, hal⟩, hU, hA⟩ := h
+      have ih := ms_eq ms hms
+      have hc := aligned_cast hal
+      have := unionLayout_eq p (al.map Int.toNat) (specMembers ms) hc.2 ih.2 (uMemInScope_of_regions hU hA)
+      rw [specSizeAlign_union]
+      simp only [Ty.sizeAlign, ih.1, bind, Except.bind, hc.1, this, pure, Except.pure, SLayout.toLayout]
+      refine ⟨trivial, ?_⟩
+      have ha0 : 0 < (al.map Int.toNat).getD 1 := by
+        cases h' : al.map Int.toNat with
+        | none => simp
+        | some n => simpa using hc.2 n h'
+      exact Nat.lt_of_lt_of_le ha0 (aggAlign_ge ..)
+  theorem ms_eq : ∀ (ms : Members), ms.ok true = true →
+      ms.toMems = .ok ((specMembers ms).map SMem.toMem) ∧ ∀ m ∈ specMembers ms, m.WF
+    | .nil, _ => by
+      refine ⟨rfl, ?_⟩
+      intro m hm
+      simp [specMembers] at hm
+    | .cons d ty rest, h => by
+      simp only [Members.ok, Bool.and_eq_true, decide_eq_true_eq] at h
+      obtain ⟨⟨⟨hty, hrest⟩, haa⟩, hbf⟩ := h
+      have ih1 := ty_eq ty hty
+      have ih2 := ms_eq rest hrest
+      have hsm : specMembers (.cons d ty rest) =
+          { size := (specSizeAlign ty).1, tyAlign := (specSizeAlign ty).2, alignas := d.alignas.toNat,
+            bitWidth := d.bitWidth.map Int.toNat, named := d.named } :: specMembers rest := by
+        simp [specMembers]
+      have hal : ((if d.alignas.toNat ≠ 0 then d.alignas.toNat else (specSizeAlign ty).2 : Nat) : Int) =
+          (if d.alignas ≠ 0 then d.alignas else (((specSizeAlign ty).2 : Nat) : Int)) := by
+        by_cases h0 : d.alignas = 0
+        · simp [h0]
+        · have : d.alignas.toNat ≠ 0 := by omega
+          simp only [ne_eq, h0, this, not_false_eq_true, if_true]
+          omega
+      constructor
+      · simp only [Members.toMems, ih1.1, ih2.1, bind, Except.bind, pure, Except.pure, hsm, List.map_cons, SMem.toMem,
+          Except.ok.injEq, List.cons.injEq, and_true, Mem.mk.injEq, hal, true_and]
+        cases hb : d.bitWidth with
+        | none => simp
+        | some w =>
+          rw [hb] at hbf
+          simp only [Bool.and_eq_true, decide_eq_true_eq] at hbf
+          have : ((w.toNat : Nat) : Int) = w := Int.toNat_of_nonneg hbf.1.1.2
+          simp [this]
+      · intro m hm
+        rw [hsm] at hm
+        rcases List.mem_cons.mp hm with rfl | hm'
+        · refine ⟨ih1.2, ?_⟩
+          cases hb : d.bitWidth with
+          | none => simp
+          | some w =>
+            rw [hb] at hbf
+            simp only [Bool.and_eq_true, decide_eq_true_eq, Bool.or_eq_true, Bool.not_eq_true', beq_iff_eq] at hbf
+            obtain ⟨⟨⟨⟨hbase, ha0⟩, hw0⟩, hw8⟩, hnm⟩ := hbf
+            have hp := bitfieldBase_props hbase
+            simp only [Option.map_some]
+            refine ⟨hp.1, by omega, hp.2, by omega, ?_⟩
+            intro hn
+            rcases hnm with hnm | hnm
+            · rw [hn] at hnm; cases hnm
+            · omega
+        · exact ih2.2 m hm'
+end
+
+
+/-- whole types: the layout the model computes for a well-formed, in-scope type description is the spec's -/
+theorem layout_eq (t : Ty) (h : t.ok true = true) : t.layout = .ok (specTy t).toLayout := by
+  cases t with
+  | struct p al ms =>
+    simp only [Ty.ok, Bool.not_true, Bool.false_or, Bool.and_eq_true, Bool.not_eq_true'] at h
+    obtain ⟨⟨hms, hal⟩, hB, hA⟩ := h
+    have ih := ms_eq ms hms
+    have hc := aligned_cast hal
+    simp only [Ty.layout, ih.1, bind, Except.bind, hc.1, specTy]
+    exact structLayout_eq p (al.map Int.toNat) (specMembers ms) hc.2 ih.2 (memInScope_of_regions hB hA)
+  | union p al ms =>
+    simp only [Ty.ok, Bool.not_true, Bool.false_or, Bool.and_eq_true, Bool.not_eq_true'] at h
+    obtain ⟨⟨hms, hal⟩, hU, hA⟩ := h
+    have ih := ms_eq ms hms
+    have hc := aligned_cast hal
+    simp only [Ty.layout, ih.1, bind, Except.bind, hc.1, specTy]
+    exact unionLayout_eq p (al.map Int.toNat) (specMembers ms) hc.2 ih.2 (uMemInScope_of_regions hU hA)
+  | prim t => have := (ty_eq (.prim t) h).1; simp only [Ty.layout, this, bind, Except.bind, pure, Except.pure, specTy, SLayout.toLayout, List.map_nil]
+  | enum => have := (ty_eq .enum h).1; simp only [Ty.layout, this, bind, Except.bind, pure, Except.pure, specTy, SLayout.toLayout, List.map_nil]
+  | ptr => have := (ty_eq .ptr h).1; simp only [Ty.layout, this, bind, Except.bind, pure, Except.pure, specTy, SLayout.toLayout, List.map_nil]
+  | arr e n => have := (ty_eq (.arr e n) h).1; simp only [Ty.layout, this, bind, Except.bind, pure, Except.pure, specTy, SLayout.toLayout, List.map_nil]
+  | flex e => have := (ty_eq (.flex e) h).1; simp only [Ty.layout, this, bind, Except.bind, pure, Except.pure, specTy, SLayout.toLayout, List.map_nil]
+
 end ChibiVerif.Layout
+
+/-! ### what the spec's allocation rule means, declaratively (psABI 3.1.2) -/
+
+namespace ChibiVerif.Spec.Layout
+open ChibiVerif.Layout
+
+/-- bits a struct member occupies -/
+def SMem.bits (m : SMem) : Nat :=
+  match m.bitWidth with
+  | some w => w
+  | none => 8 * m.size
+
+/-- `s` is the least multiple of `a` that is ≥ `cur` -/
+def LeastAligned (a cur s : Nat) : Prop := a ∣ s ∧ cur ≤ s ∧ ∀ s', a ∣ s' → cur ≤ s' → s ≤ s'
+
+theorem leastAligned_roundUp (a cur : Nat) (ha : 0 < a) : LeastAligned a cur (roundUp cur a) :=
+  ⟨roundUp_dvd cur a ha, roundUp_ge cur a, fun _ hd hc => roundUp_least ha hd hc⟩
+
+/-- the allocation rule, declaratively (psABI 3.1.2), for one member of a struct that is not packed -/
+theorem allocate_sound (cur : Nat) (m : SMem) (hwf : m.WF) :
+    cur ≤ (allocate false cur m).1 ∧ (allocate false cur m).2 = (allocate false cur m).1 + m.bits ∧
+    (m.bitWidth = none → LeastAligned (8 * m.reqAlign false) cur (allocate false cur m).1) ∧
+    (m.bitWidth = some 0 → LeastAligned (8 * m.size) cur (allocate false cur m).1) ∧
+    (∀ w, m.bitWidth = some w → 0 < w →
+      -- the field lies inside one naturally aligned storage unit of its declared type …
+      (allocate false cur m).1 / (8 * m.size) = ((allocate false cur m).1 + w - 1) / (8 * m.size) ∧
+      -- … and it starts at the next free bit unless that would cross a unit boundary, then at the next boundary
+      ((cur % (8 * m.size) + w ≤ 8 * m.size ∧ (allocate false cur m).1 = cur) ∨
+       (¬ cur % (8 * m.size) + w ≤ 8 * m.size ∧ LeastAligned (8 * m.size) cur (allocate false cur m).1))) := by
+  obtain ⟨size, tyAlign, alignas, bw, named⟩ := m
+  obtain ⟨hta, hbf⟩ := hwf
+  simp only at hta hbf
+  cases bw with
+  | none =>
+    have hA : 0 < (if alignas ≠ 0 then alignas else tyAlign) := by split <;> omega
+    have hr : SMem.reqAlign false ⟨size, tyAlign, alignas, none, named⟩ = (if alignas ≠ 0 then alignas else tyAlign) := by
+      simp [SMem.reqAlign]
+    have hpos : 0 < 8 * SMem.reqAlign false ⟨size, tyAlign, alignas, none, named⟩ := by rw [hr]; omega
+    refine ⟨roundUp_ge .., rfl, fun _ => leastAligned_roundUp _ _ hpos, ?_, ?_⟩
+    · intro h; cases h
+    · intro w h; cases h
+  | some w =>
+    obtain ⟨hsz, ha0, hts, hw8, hnm⟩ := hbf
+    by_cases hw : w = 0
+    · subst hw
+      have hal : allocate false cur ⟨size, tyAlign, alignas, some 0, named⟩ = (roundUp cur (8 * size), roundUp cur (8 * size)) := by
+        simp [allocate]
+      rw [hal]
+      have hpos : 0 < 8 * size := by omega
+      refine ⟨roundUp_ge .., rfl, ?_, fun _ => leastAligned_roundUp _ _ hpos, ?_⟩
+      · intro h; cases h
+      · intro w' h hw'; cases h; omega
+    · by_cases hfit : cur % (8 * size) + w ≤ 8 * size
+      · have hal : allocate false cur ⟨size, tyAlign, alignas, some w, named⟩ = (cur, cur + w) := by
+          simp [allocate, hw, hfit]
+        rw [hal]
+        refine ⟨Nat.le_refl _, rfl, ?_, ?_, ?_⟩
+        · intro h; cases h
+        · intro h; cases h; exact absurd rfl hw
+        · intro w' h hw'
+          cases h
+          refine ⟨?_, Or.inl ⟨hfit, rfl⟩⟩
+          have := straddle_iff cur w (8 * size) (by omega) hw'
+          exact Classical.not_not.mp (fun hne => (this.mp hne) hfit)
+      · have hal : allocate false cur ⟨size, tyAlign, alignas, some w, named⟩ =
+            (roundUp cur (8 * size), roundUp cur (8 * size) + w) := by
+          simp [allocate, hw, hfit]
+        rw [hal]
+        refine ⟨roundUp_ge .., rfl, ?_, ?_, ?_⟩
+        · intro h; cases h
+        · intro h; cases h; exact absurd rfl hw
+        · intro w' h hw'
+          cases h
+          have hpos : 0 < 8 * size := by omega
+          refine ⟨?_, Or.inr ⟨hfit, leastAligned_roundUp _ _ hpos⟩⟩
+          obtain ⟨k, hk⟩ := roundUp_dvd cur (8 * size) (by omega)
+          show roundUp cur (8 * size) / (8 * size) = (roundUp cur (8 * size) + w - 1) / (8 * size)
+          rw [hk]
+          have h1 : 8 * size * k / (8 * size) = k := Nat.mul_div_cancel_left k (by omega)
+          rw [h1]
+          symm
+          apply Nat.div_eq_of_lt_le
+          · rw [Nat.mul_comm]; omega
+          · rw [Nat.add_mul, Nat.mul_comm]; omega
+
+/-- members in declaration order, pairwise disjoint, all before `e` -/
+def InOrder : Nat → List SMem → List SPlaced → Nat → Prop
+  | cur, [], [], e => cur = e
+  | cur, m :: ms, p :: ps, e => cur ≤ p.firstBit ∧ InOrder (p.firstBit + m.bits) ms ps e
+  | _, _, _, _ => False
+
+theorem placedAt_firstBit (m : SMem) (s : Nat) : (placedAt m s).firstBit = s := by
+  unfold placedAt
+  cases m.bitWidth with
+  | none => rfl
+  | some w => by_cases h : w = 0 <;> simp [h]
+
+theorem allocateAll_inOrder (ms : List SMem) : ∀ cur, (∀ m ∈ ms, m.WF) →
+    InOrder cur ms (allocateAll false cur ms).2 (allocateAll false cur ms).1 := by
+  induction ms with
+  | nil => intro cur _; rfl
+  | cons m ms ih =>
+    intro cur hwf
+    have hs := allocate_sound cur m (hwf m (List.mem_cons_self ..))
+    rw [allocateAll_cons]
+    simp only [InOrder, placedAt_firstBit]
+    refine ⟨hs.1, ?_⟩
+    rw [← hs.2.1]
+    exact ih _ (fun x hx => hwf x (List.mem_cons_of_mem _ hx))
+
+theorem inOrder_le {ms : List SMem} : ∀ {cur ps e}, InOrder cur ms ps e → cur ≤ e := by
+  induction ms with
+  | nil => intro cur ps e h; cases ps with
+    | nil => simp only [InOrder] at h; omega
+    | cons => simp [InOrder] at h
+  | cons m ms ih => intro cur ps e h; cases ps with
+    | nil => simp [InOrder] at h
+    | cons p ps => simp only [InOrder] at h; have := ih h.2; omega
+
+theorem contrib_le_aggAlign (p : Bool) (ms : List SMem) : ∀ a, ∀ m ∈ ms, m.contrib p ≤ aggAlign p a ms := by
+  induction ms with
+  | nil => intro a m hm; cases hm
+  | cons x xs ih =>
+    intro a m hm
+    rw [aggAlign_cons]
+    rcases List.mem_cons.mp hm with rfl | h
+    · exact Nat.le_trans (Nat.le_max_right ..) (aggAlign_ge ..)
+    · exact ih _ m h
+
+/-- size and alignment of the struct: the size is a multiple of the alignment, covers every member, and is the
+    least such; the alignment is at least that of every contributing member -/
+theorem specStruct_size (aligned : Option Nat) (ms : List SMem) (hal : ∀ n, aligned = some n → 0 < n) :
+    let l := specStruct false aligned ms
+    l.align ∣ l.size ∧ (allocateAll false 0 ms).1 ≤ 8 * l.size ∧ 8 * l.size < (allocateAll false 0 ms).1 + 8 * l.align ∧
+    (∀ m ∈ ms, m.contrib false ≤ l.align) ∧ (∀ n, aligned = some n → n ≤ l.align) := by
+  have ha0 : 0 < aligned.getD 1 := by
+    cases aligned with
+    | none => simp
+    | some n => simpa using hal n rfl
+  have hpos : 0 < aggAlign false (aligned.getD 1) ms := Nat.lt_of_lt_of_le ha0 (aggAlign_ge ..)
+  have hc := contrib_le_aggAlign false ms (aligned.getD 1)
+  have hg := aggAlign_ge false ms (aligned.getD 1)
+  simp only [specStruct]
+  generalize aggAlign false (aligned.getD 1) ms = al at hpos hc hg
+  generalize (allocateAll false 0 ms).1 = e
+  obtain ⟨k, hk⟩ := roundUp_dvd e (8 * al) (by omega)
+  have hge := roundUp_ge e (8 * al)
+  have hlt := roundUp_lt e (8 * al) (by omega)
+  have hdiv : roundUp e (8 * al) / 8 = al * k := by
+    rw [hk, Nat.mul_assoc]; exact Nat.mul_div_cancel_left _ (by omega)
+  refine ⟨⟨k, hdiv⟩, ?_, ?_, ?_, ?_⟩
+  · rw [hdiv]; rw [hk, Nat.mul_assoc] at hge; exact hge
+  · rw [hdiv]; rw [hk, Nat.mul_assoc] at hlt; exact hlt
+  · exact hc
+  · intro n hn; subst hn; exact hg
+
+end ChibiVerif.Spec.Layout
